@@ -42,6 +42,12 @@ class Contract:
         self.verify = kw.pop("verify", True)  # False: contract is only *assumed* at call sites (trusted)
         self.xcheck = kw.pop("xcheck", None)
         self.sorted_mode = kw.pop("sorted_mode", "permutation")
+        # proof hints: {"before:<first source line of a statement>": [clauses]}: each clause is PROVED at that program
+        # point and only then assumed (intermediate assertions, as in Dafny/VeriFast); keyed by text, not line number
+        self.hints = dict(kw.pop("hints", {}))
+        # ghost results: names (starting with _ghost) set by the executor while running the body (e.g. the insertion
+        # index of sorted()); usable in ensures; at modular call sites they are fresh existential witnesses
+        self.ghost_results = dict(kw.pop("ghost_results", {}))
         if kw:
             raise TypeError("unknown contract options %r for %s" % (list(kw), key))
         self._clauses = {}
